@@ -16,6 +16,7 @@ type Mutex struct {
 	Owner *vsched.Task
 }
 
+//go:norace
 func (m *Mutex) Lock() {
 	if !vsched.Active {
 		m.real.Lock()
@@ -29,17 +30,19 @@ func (m *Mutex) Lock() {
 		if vsched.Cur() == nil {
 			panic("INFRA: controller Lock on a held mutex")
 		}
-		vsched.Block("mutex", m, func() bool { return !m.Held })
+		vsched.Block("mutex", m, mutexFree{m}.ok)
 	}
 	m.acquire()
 }
 
+//go:norace
 func (m *Mutex) acquire() {
 	m.Held = true
 	m.Owner = vsched.Cur()
 	m.real.Lock()
 }
 
+//go:norace
 func (m *Mutex) Unlock() {
 	if !vsched.Active {
 		m.real.Unlock()
@@ -57,6 +60,7 @@ func (m *Mutex) Unlock() {
 	vsched.Yield(vsched.PUnlock)
 }
 
+//go:norace
 func (m *Mutex) TryLock() bool {
 	if !vsched.Active {
 		return m.real.TryLock()
@@ -79,8 +83,10 @@ type Cond struct {
 	waiters []*waiter
 }
 
+//go:norace
 func NewCond(l Locker) *Cond { return &Cond{L: l, real: sync.NewCond(l)} }
 
+//go:norace
 func (c *Cond) Wait() {
 	if !vsched.Active {
 		c.real.Wait()
@@ -101,10 +107,11 @@ func (c *Cond) Wait() {
 	m.Held = false
 	m.Owner = nil
 	m.real.Unlock()
-	vsched.Block("cond", c, func() bool { return w.signaled && !m.Held })
+	vsched.Block("cond", c, condReady{w, m}.ok)
 	m.acquire()
 }
 
+//go:norace
 func (c *Cond) Signal() {
 	if !vsched.Active {
 		c.real.Signal()
@@ -124,6 +131,7 @@ func (c *Cond) Signal() {
 	vsched.Yield(vsched.PSignal)
 }
 
+//go:norace
 func (c *Cond) Broadcast() {
 	if !vsched.Active {
 		c.real.Broadcast()
@@ -140,6 +148,7 @@ func (c *Cond) Broadcast() {
 }
 
 // NumWaiters is used by the state dump.
+//go:norace
 func (c *Cond) NumWaiters() int { return len(c.waiters) }
 
 type WaitGroup struct {
@@ -147,6 +156,7 @@ type WaitGroup struct {
 	n    int
 }
 
+//go:norace
 func (w *WaitGroup) Add(d int) {
 	if !vsched.Active {
 		w.real.Add(d)
@@ -162,8 +172,10 @@ func (w *WaitGroup) Add(d int) {
 	w.real.Add(d)
 }
 
+//go:norace
 func (w *WaitGroup) Done() { w.Add(-1) }
 
+//go:norace
 func (w *WaitGroup) Wait() {
 	if !vsched.Active {
 		w.real.Wait()
@@ -173,15 +185,37 @@ func (w *WaitGroup) Wait() {
 		return
 	}
 	if w.n > 0 {
-		vsched.Block("waitgroup", w, func() bool { return w.n == 0 })
+		vsched.Block("waitgroup", w, wgZero{w}.ok)
 	}
 	w.real.Wait()
 }
 
 // Counter is used by the state dump.
+//go:norace
 func (w *WaitGroup) Counter() int { return w.n }
 
 type RWMutex = sync.RWMutex
 type Once = sync.Once
 type Map = sync.Map
 type Pool = sync.Pool
+
+
+// Readiness predicates are named norace methods (a closure would be
+// instrumented by the race detector and report the scheduler's own state).
+type mutexFree struct{ m *Mutex }
+
+//go:norace
+func (r mutexFree) ok() bool { return !r.m.Held }
+
+type condReady struct {
+	w *waiter
+	m *Mutex
+}
+
+//go:norace
+func (r condReady) ok() bool { return r.w.signaled && !r.m.Held }
+
+type wgZero struct{ w *WaitGroup }
+
+//go:norace
+func (r wgZero) ok() bool { return r.w.n == 0 }
